@@ -17,7 +17,7 @@ pub struct C02;
 fn gen_buffers(r: &mut Rng, seed: u64) -> Case {
     const KEYS: &[&str] = &["a", "b", "c", "d", "e", "f", "g", "h", "i", "j", "k", "l", "m", "n", "o", "p", "q", "r", "s", "t", "u", "v", "w", "x", "y", "z", "1", "2", "3", "4", "5", "6", "7", "8", "9", "0"];
     let mut case = Case { prop: "C02".into(), seed, ..Default::default() };
-    let kind = *r.pick(&["wide-chord-v2", "wide-chord-v2", "wide-chord-v1", "oneshot-mods", "macros", "layers", "tapholds", "switch-depth", "degenerate", "degenerate", "accumulators", "many-active-chords"]);
+    let kind = *r.pick(&["wide-chord-v2", "wide-chord-v2", "wide-chord-v1", "oneshot-mods", "macros", "layers", "tapholds", "switch-depth", "degenerate", "degenerate", "accumulators", "many-active-chords", "huge-zippy-output"]);
     case.set("population", "mapped");
     case.set("buffers", kind);
     case.set("mode", if r.chance(500) { "blocking" } else { "ticking" });
@@ -154,6 +154,25 @@ fn gen_buffers(r: &mut Rng, seed: u64) -> Case {
                 ops.push(Op::Release(code(keys[1])));
             }
             ops.push(Op::Gap(700));
+        }
+        "huge-zippy-output" => {
+            // a zippychord expansion as long as the file size allows: its length goes into 16-bit
+            // counters when the chord is activated (and again when a follow-up supersedes it)
+            let n = *r.pick(&[5000usize, 9999, 10000, 10001, 16000, 32768, 40000]);
+            case.cfg = "(defsrc d y f)\n(deflayer l0 d y f)\n(defzippy zippy.txt)\n".to_string();
+            case.files = vec![("zippy.txt".into(), format!("dy\t{}\ndy f\t{}b\n", "a".repeat(n), "a".repeat(n / 2)))];
+            for k in ["d", "y"] {
+                ops.push(Op::Press(code(k)));
+                ops.push(Op::Gap(2));
+            }
+            for k in ["d", "y"] {
+                ops.push(Op::Release(code(k)));
+                ops.push(Op::Gap(2));
+            }
+            ops.push(Op::Press(code("f")));
+            ops.push(Op::Gap(5));
+            ops.push(Op::Release(code("f")));
+            ops.push(Op::Gap(100));
         }
         "accumulators" => {
             // actions that add to a counter every time they run (sequence-noerase while a sequence is
